@@ -1,4 +1,7 @@
 """C06 — committed offsets are marked offsets, and no mark is lost (offset_manager.go)."""
+import glob
+import os
+
 from decgen_tie import run_decgen
 
 
@@ -29,9 +32,24 @@ def run(c):
         args = ["-depth", "2", "-nshort", "500", "-n", "250"]
     else:
         args = ["-depth", "3", "-nshort", "6000", "-n", "6000"]
+    args += os.environ.get("C06CORR_SELFTEST", "").split()     # harness self-test only: "-failcase N" / "-crashcase N"
     rc, out = c.run([b, "-out", c.build, "-seed", str(c.seed)] + args, timeout=2400)
-    if rc != 0:
-        c.break_("corr", "c06corr harness run failed", out)
-        return
+    # a case the harness could not run (listener / connection could not be opened after all retries, unexpected panic inside a
+    # case) is not an observation of the code: it is left out of the case files and reported as a broken tie naming the case
+    for l in out.splitlines():
+        if l.startswith("HARNESSFAIL "):
+            c.break_("corr", "c06corr: " + l[len("HARNESSFAIL "):].split(" script=", 1)[0] + " (case not run)", l)
     files = [l.split(" ", 1)[1] for l in out.splitlines() if l.startswith("CASEFILE ")]
+    if rc != 0:
+        # the harness process died: name the case it was running and still evaluate every shard it had completed
+        culprit = ""
+        try:
+            culprit = open(os.path.join(c.build, "c06corr_current.json")).read()
+        except OSError:
+            pass
+        c.break_("corr", "c06corr harness run failed (rc %d) while running case %s" % (rc, culprit[:300] or "?"), out[-3000:] + "\n" + culprit)
+        files = sorted(f for f in glob.glob(os.path.join(c.build, "cases_c06_*.v"))
+                       if os.path.exists(f[:-2] + ".jsonl"))
+        if not files:
+            return
     c.eval_cases(files, name="offset manager correspondence")
